@@ -58,6 +58,8 @@ def gen_cfg(rng, tier: str, big: bool = False) -> dict:
         "uid_seed": rng.getrandbits(32),
         "bitmap": rng.choice(["ones", "written"]),
         "far": big or rng.random() < 0.05,
+        # block starts are 32-bit sector numbers: the file can reach 2 TiB; entries >= 0x80000000 need offsets >= 1 TiB
+        "far_off": rng.choice([1 << 32, 1 << 40, (1 << 40) + (1 << 39), (1 << 40) + (3 << 38)]),
     }
 
 
@@ -89,14 +91,14 @@ def render(cfg: dict, layer: Layer, view: View) -> Image:
         if cfg["bat_after_data"]:
             data_off = hdr_off + 1024 + cfg["data_gap"]
             if cfg["far"]:
-                data_off += 1 << 32
+                data_off += cfg.get("far_off", 1 << 32)
             bat_off = data_off + nslots * stride + cfg["bat_gap"]
             end = bat_off + bat_bytes
         else:
             bat_off = hdr_off + 1024 + cfg["bat_gap"]
             data_off = bat_off + bat_bytes + cfg["data_gap"]
             if cfg["far"]:
-                data_off += 1 << 32
+                data_off += cfg.get("far_off", 1 << 32)
             end = data_off + nslots * stride
         # BAT entries are 32-bit sector numbers: keep every block start below 2^32 sectors
         assert (data_off + nslots * stride) // 512 < 0xFFFFFFFF
